@@ -23,6 +23,7 @@ type RunConfig struct {
 	Params        map[string]int
 	Tier          string
 	Deadline      time.Time
+	NoMerge       bool
 	Concrete      []NondetVal // when non-nil: concrete replay of a recorded case
 	Verbose       bool
 }
@@ -63,6 +64,7 @@ type PathState struct {
 	nondets   []nondetRec
 	reach     map[string]bool
 	Steps     int
+	Merges    int
 	Oblig     int
 	Discharged int
 	viols     []*Violation
